@@ -401,6 +401,65 @@ Fixpoint multi_entries (n : nat) (es : list (string * held * path)) : list (stri
 Definition atomicity_violations (I : instance) : list (string * nat) :=
   multi_entries 0 (i_tbl I) ++ flat_map (fun e => multi_from (fst e) 0 (snd e)) (i_methods I).
 
+(* ---- the shape the reduction theorem needs ----------------------------------------------------
+   Beyond [ok], the reduction from micro-steps to atomic sections (section Data below, [pok]) needs:
+   mutex 0 is the outer lock -- any other mutex is taken only while mutex 0 is held exclusively, and
+   mutex 0 is released last; a hand-off happens holding exactly mutex 0 shared, and the goroutine that
+   receives the section neither starts goroutines nor hands off again; a goroutine started inside a
+   section is started under the exclusive outer lock and touches nothing (only blocking sites); a
+   goroutine started outside any section is inert, or only starts inert ones (escaping closures). *)
+Definition inert_code (c : list act) : bool :=
+  forallb (fun a => match a with Blk _ => true | _ => false end) c.
+Definition seg_all (f : list act -> bool) (s : seg) : bool :=
+  match s with Straight l => f l | Iter alts => forallb f alts end.
+Definition inert_path (p : path) : bool := forallb (seg_all inert_code) p.
+Definition nospawn_code (c : list act) : bool :=
+  forallb (fun a => match a with Spawn _ | Handoff _ => false | _ => true end) c.
+Definition nospawn_path (p : path) : bool := forallb (seg_all nospawn_code) p.
+Definition tpath (tbl : list (held * path)) (i : nat) : path := snd (nth i tbl ([], [])).
+Definition spawn_inert_code (tbl : list (held * path)) (c : list act) : bool :=
+  forallb (fun a => match a with Blk _ => true | Spawn j => inert_path (tpath tbl j) | _ => false end) c.
+Definition hnext (h : held) (a : act) : held :=
+  match a with
+  | Acq m md => (m, md) :: h
+  | Rel m _ => hdel h m
+  | Handoff _ => []
+  | _ => h
+  end.
+Definition shape_act (tbl : list (held * path)) (h : held) (a : act) : bool :=
+  match a with
+  | Acq m _ => Nat.eqb m 0 || holdsW h 0
+  | Rel m _ => negb (Nat.eqb m 0) || Nat.eqb (List.length h) 1
+  | Handoff i => held_eqb h [(0, MR)] && nospawn_path (tpath tbl i)
+  | Spawn i => if is_nil h then forallb (seg_all (spawn_inert_code tbl)) (tpath tbl i)
+               else holdsW h 0 && inert_path (tpath tbl i)
+  | _ => true
+  end.
+Fixpoint shape_code (tbl : list (held * path)) (h : held) (c : list act) : bool :=
+  match c with
+  | [] => true
+  | a :: k => shape_act tbl h a && shape_code tbl (hnext h a) k
+  end.
+Definition hafter (h : held) (c : list act) : held := fold_left hnext c h.
+Fixpoint shape_path (tbl : list (held * path)) (h : held) (p : path) : bool :=
+  match p with
+  | [] => true
+  | Straight l :: p' => shape_code tbl h l && shape_path tbl (hafter h l) p'
+  | Iter alts :: p' => forallb (shape_code tbl h) alts && shape_path tbl h p'
+  end.
+Fixpoint shape_from (tbl : list (held * path)) (name : string) (n : nat) (ps : list path) : list (string * nat) :=
+  match ps with
+  | [] => []
+  | p :: ps' => (if shape_path tbl [] p then [] else [(name, n)]) ++ shape_from tbl name (S n) ps'
+  end.
+Fixpoint shape_entries (tbl : list (held * path)) (n : nat) (es : list (string * held * path)) : list (string * nat) :=
+  match es with
+  | [] => []
+  | e :: es' => (if shape_path tbl (snd (fst e)) (snd e) then [] else [(fst (fst e), n)]) ++ shape_entries tbl (S n) es'
+  end.
+Definition reduction_shape_violations (I : instance) : list (string * nat) :=
+  shape_entries (i_table I) 0 (i_tbl I) ++ flat_map (fun e => shape_from (i_table I) (fst e) 0 (snd e)) (i_methods I).
+
 (* the codes one call of a method of the property can run *)
 Definition call_code (I : instance) (cd : list act) : Prop :=
   exists name ps p, In (name, ps) (i_methods I) /\ In p ps /\ expands p cd.
@@ -409,79 +468,118 @@ Definition client_code (I : instance) (cd : list act) : Prop :=
   exists cds, Forall (call_code I) cds /\ cd = concat cds.
 
 (* ---- programs with data: the reduction from micro-steps to atomic sections ------------------
-   (single RW mutex, no nesting, no goroutine creation: the shape of every operation of
-   ReadWrite and StorageCar except the goroutine of AllKeysChan, which touches no shared field)
+   Mutex 0 is the object's (outer) lock; any other mutex may only be taken while mutex 0 is held
+   exclusively and is released before it (the nested pair DeferredCarWriter.lk -> StorageCar.mu);
+   a critical section = from the acquisition of mutex 0 to its release.  A shared section may be
+   handed off to a new goroutine, which finishes it (ReadOnly.AllKeysChan); an exclusive section
+   may start goroutines that do nothing before they take the lock themselves
+   (ReadWrite.AllKeysChan after the repair).
    A call is a resumption: what it does next may depend on every value it has read. *)
 Section Data.
 Variables V R : Type.
 Variable exempt : nat -> bool.
+Variable guard : nat -> nat.
 
 Inductive prog :=
 | PRet (r : R)
-| PAcq (md : mode) (k : prog)
-| PRel (md : mode) (k : prog)
+| PAcq (m : nat) (md : mode) (k : prog)
+| PRel (m : nat) (md : mode) (k : prog)
 | PRd (f : nat) (k : V -> prog)
-| PWr (f : nat) (v : V) (k : prog).
+| PWr (f : nat) (v : V) (k : prog)
+| PSpawn (c : prog) (k : prog)       (* go func() { c }(); k *)
+| PHandoff (c : prog) (k : prog).    (* go func() { c }() where c inherits the caller's locks; k *)
 
 Definition store := nat -> V.
 Definition supd (s : store) (f : nat) (v : V) : store := fun x => if Nat.eqb x f then v else s x.
 
-(* the lock discipline on resumptions: along every branch *)
-Fixpoint pok (h : option mode) (p : prog) : Prop :=
+(* a goroutine started inside an exclusive section does nothing before it returns or locks *)
+Definition quiet (c : prog) : Prop :=
+  match c with PRet _ | PAcq _ _ _ => True | _ => False end.
+
+(* the lock discipline on resumptions, along every branch.  [ho]: a hand-off is allowed (not inside
+   a section that was itself handed off). *)
+Fixpoint pok (ho : bool) (h : held) (p : prog) : Prop :=
   match p with
-  | PRet _ => h = None
-  | PAcq md k => h = None /\ pok (Some md) k
-  | PRel md k => h = Some md /\ pok None k
-  | PRd f k => (exempt f = true \/ h <> None) /\ forall v, pok h (k v)
-  | PWr f v k => exempt f = false /\ h = Some MW /\ pok h k
+  | PRet _ => h = []
+  | PAcq m md k =>
+      (if Nat.eqb m 0 then h = [] else holdsW h 0 = true /\ hget h m = None) /\
+      pok ho ((m, md) :: h) k
+  | PRel m md k =>
+      hget h m = Some md /\ (m = 0 -> h = [(0, md)]) /\
+      pok (if Nat.eqb m 0 then true else ho) (hdel h m) k
+  | PRd f k => (exempt f = true \/ holdsAny h (guard f) = true) /\ forall v, pok ho h (k v)
+  | PWr f v k => exempt f = false /\ holdsW h (guard f) = true /\ pok ho h k
+  | PSpawn c k => holdsW h 0 = true /\ quiet c /\ pok true [] c /\ pok ho h k
+  | PHandoff c k => ho = true /\ h = [(0, MR)] /\ pok false [(0, MR)] c /\ pok true [] k
   end.
 
 (* micro-step machine: actions of different threads interleave *)
-Record dthread := { dh : option mode; dp : prog }.
-Record dcfg := { dwl : bool; drc : nat; dst : store; dts : list dthread }.
+Record dthread := { dh : held; dp : prog }.
+Record dcfg := { dlk : nat -> lockst; dst : store; dts : list dthread }.
 
 Inductive dstep : dcfg -> dcfg -> Prop :=
-| DAcqW l r h k c :
-    dts c = l ++ {| dh := h; dp := PAcq MW k |} :: r -> dwl c = false -> drc c = 0 ->
-    dstep c {| dwl := true; drc := 0; dst := dst c; dts := l ++ {| dh := Some MW; dp := k |} :: r |}
-| DAcqR l r h k c :
-    dts c = l ++ {| dh := h; dp := PAcq MR k |} :: r -> dwl c = false ->
-    dstep c {| dwl := false; drc := S (drc c); dst := dst c; dts := l ++ {| dh := Some MR; dp := k |} :: r |}
-| DRelW l r h k c :
-    dts c = l ++ {| dh := h; dp := PRel MW k |} :: r ->
-    dstep c {| dwl := false; drc := drc c; dst := dst c; dts := l ++ {| dh := None; dp := k |} :: r |}
-| DRelR l r h k c :
-    dts c = l ++ {| dh := h; dp := PRel MR k |} :: r ->
-    dstep c {| dwl := dwl c; drc := pred (drc c); dst := dst c; dts := l ++ {| dh := None; dp := k |} :: r |}
+| DAcqW l r h k c m :
+    dts c = l ++ {| dh := h; dp := PAcq m MW k |} :: r ->
+    wl (dlk c m) = false -> rc (dlk c m) = 0 ->
+    dstep c {| dlk := upd (dlk c) m {| wl := true; rc := 0 |}; dst := dst c;
+               dts := l ++ {| dh := (m, MW) :: h; dp := k |} :: r |}
+| DAcqR l r h k c m :
+    dts c = l ++ {| dh := h; dp := PAcq m MR k |} :: r ->
+    wl (dlk c m) = false ->
+    dstep c {| dlk := upd (dlk c) m {| wl := false; rc := S (rc (dlk c m)) |}; dst := dst c;
+               dts := l ++ {| dh := (m, MR) :: h; dp := k |} :: r |}
+| DRelW l r h k c m :
+    dts c = l ++ {| dh := h; dp := PRel m MW k |} :: r ->
+    dstep c {| dlk := upd (dlk c) m {| wl := false; rc := rc (dlk c m) |}; dst := dst c;
+               dts := l ++ {| dh := hdel h m; dp := k |} :: r |}
+| DRelR l r h k c m :
+    dts c = l ++ {| dh := h; dp := PRel m MR k |} :: r ->
+    dstep c {| dlk := upd (dlk c) m {| wl := wl (dlk c m); rc := pred (rc (dlk c m)) |}; dst := dst c;
+               dts := l ++ {| dh := hdel h m; dp := k |} :: r |}
 | DRd l r h f k c :
     dts c = l ++ {| dh := h; dp := PRd f k |} :: r ->
-    dstep c {| dwl := dwl c; drc := drc c; dst := dst c; dts := l ++ {| dh := h; dp := k (dst c f) |} :: r |}
+    dstep c {| dlk := dlk c; dst := dst c; dts := l ++ {| dh := h; dp := k (dst c f) |} :: r |}
 | DWr l r h f v k c :
     dts c = l ++ {| dh := h; dp := PWr f v k |} :: r ->
-    dstep c {| dwl := dwl c; drc := drc c; dst := supd (dst c) f v; dts := l ++ {| dh := h; dp := k |} :: r |}.
+    dstep c {| dlk := dlk c; dst := supd (dst c) f v; dts := l ++ {| dh := h; dp := k |} :: r |}
+| DSpawn l r h ch k c :
+    dts c = l ++ {| dh := h; dp := PSpawn ch k |} :: r ->
+    dstep c {| dlk := dlk c; dst := dst c;
+               dts := l ++ {| dh := h; dp := k |} :: r ++ [{| dh := []; dp := ch |}] |}
+| DHandoff l r h ch k c :
+    dts c = l ++ {| dh := h; dp := PHandoff ch k |} :: r ->
+    dstep c {| dlk := dlk c; dst := dst c;
+               dts := l ++ {| dh := []; dp := k |} :: r ++ [{| dh := h; dp := ch |}] |}.
 
 Inductive dsteps : dcfg -> dcfg -> Prop :=
 | dsteps_refl c : dsteps c c
 | dsteps_trans a b c : dsteps a b -> dstep b c -> dsteps a c.
 
 Definition dinit (s : store) (ps : list prog) : dcfg :=
-  {| dwl := false; drc := 0; dst := s; dts := map (fun p => {| dh := None; dp := p |}) ps |}.
+  {| dlk := fun _ => {| wl := false; rc := 0 |}; dst := s;
+     dts := map (fun p => {| dh := []; dp := p |}) ps |}.
 
-(* atomic-section machine: no lock state; a critical section runs to its release in ONE step *)
-Fixpoint sec_run (s : store) (p : prog) : store * prog :=
+(* atomic-section machine: no lock state; a critical section (everything up to the release of mutex
+   0, inner locks included, the part run by a goroutine it is handed to included) runs in ONE step.
+   Result: the store, what the thread does afterwards, the goroutines it started. *)
+Fixpoint sec_run (s : store) (p : prog) : store * prog * list prog :=
   match p with
-  | PRel _ k => (s, k)
+  | PRel m _ k => if Nat.eqb m 0 then (s, k, []) else sec_run s k
+  | PAcq m _ k => if Nat.eqb m 0 then (s, p, []) else sec_run s k
   | PRd f k => sec_run s (k (s f))
   | PWr f v k => sec_run (supd s f v) k
-  | PAcq _ _ | PRet _ => (s, p)
+  | PSpawn c k => let '(s', p', sp) := sec_run s k in (s', p', c :: sp)
+  | PHandoff c k => let '(s', pc, sp) := sec_run s c in (s', k, sp ++ [pc])
+  | PRet _ => (s, p, [])
   end.
 
 Record acfg := { ast : store; ats : list prog }.
 
 Inductive astep : acfg -> acfg -> Prop :=
 | ASec l r md k c :
-    ats c = l ++ PAcq md k :: r ->
-    astep c {| ast := fst (sec_run (ast c) k); ats := l ++ snd (sec_run (ast c) k) :: r |}
+    ats c = l ++ PAcq 0 md k :: r ->
+    astep c {| ast := fst (fst (sec_run (ast c) k));
+               ats := l ++ snd (fst (sec_run (ast c) k)) :: r ++ snd (sec_run (ast c) k) |}
 | ARd l r f k c :
     ats c = l ++ PRd f k :: r -> exempt f = true ->
     astep c {| ast := ast c; ats := l ++ k (ast c f) :: r |}.
@@ -492,11 +590,18 @@ Inductive asteps : acfg -> acfg -> Prop :=
 
 Definition ainit (s : store) (ps : list prog) : acfg := {| ast := s; ats := ps |}.
 
-(* the act traces of a resumption (what the translator extracts from the source) *)
+(* the act traces of a resumption that starts no goroutine (what the translator extracts) *)
 Inductive ptrace : prog -> list act -> Prop :=
 | pt_ret r : ptrace (PRet r) []
-| pt_acq md k t : ptrace k t -> ptrace (PAcq md k) (Acq 0 md :: t)
-| pt_rel md k t : ptrace k t -> ptrace (PRel md k) (Rel 0 md :: t)
+| pt_acq m md k t : ptrace k t -> ptrace (PAcq m md k) (Acq m md :: t)
+| pt_rel m md k t : ptrace k t -> ptrace (PRel m md k) (Rel m md :: t)
 | pt_rd f k v t : ptrace (k v) t -> ptrace (PRd f k) (Rd f :: t)
 | pt_wr f v k t : ptrace k t -> ptrace (PWr f v k) (Wr f :: t).
+Fixpoint nospawn (p : prog) : Prop :=
+  match p with
+  | PRet _ => True
+  | PAcq _ _ k | PRel _ _ k | PWr _ _ k => nospawn k
+  | PRd _ k => forall v, nospawn (k v)
+  | PSpawn _ _ | PHandoff _ _ => False
+  end.
 End Data.
